@@ -76,10 +76,11 @@ ASSUME PartitionOK /\ RuleFunctional /\ NIP01OK
 Strings(n) == UNION {[1..k -> ClassNames] : k \in 0..n}
 TagShapes == {"none", "one", "three", "emptyval", "two-tags"}
 Tampers == {"none", "content", "tagvalue", "tagadd", "kind", "created_at", "pubkey",
-            "id-bit", "sig-bit", "sig-other", "id-other"}
+            "id-bit", "sig-bit", "sig-other", "id-other",
+            "content-reid", "pubkey-reid"}   \* forgeries with a recomputed (consistent) id and the stale signature
 
 \* what the tamper does to the two checks (id = hash of canonical form, sig over id)
-IdOK(t)  == t \in {"none", "sig-bit", "sig-other"}
+IdOK(t)  == t \in {"none", "sig-bit", "sig-other", "content-reid", "pubkey-reid"}
 SigOK(t) == t \in {"none", "content", "tagvalue", "tagadd", "kind", "created_at"}   \* sig still signs the (stale) id
 Authentic(t) == IdOK(t) /\ SigOK(t)
 OnlyUntamperedAuthentic == \A t \in Tampers : Authentic(t) <=> t = "none"
